@@ -58,6 +58,12 @@ def frac_sized(g):
     return h
 
 
+def homogeneous_transform_(T, pts, vec):
+    from deepali.core.linalg import homogeneous_transform
+
+    return homogeneous_transform(T, pts, vectors=vec)
+
+
 def check_map_case(ctx: Ctx, c: Dict[str, Any], variant: int = 0) -> None:
     from deepali.core.grid import Axes, grid_transform_points, grid_transform_vectors
 
@@ -186,6 +192,41 @@ def check_map_case(ctx: Ctx, c: Dict[str, Any], variant: int = 0) -> None:
                     report("Cube.from_grid(align_corners=%s).transform_%s" % (flag, "vectors" if vec else "points"), err, bound(scale, F32), how=how)
         if g.align_corners() != ac_before:
             ctx.violation(dict(op="Cube.from_grid", what="mutates", **sig0), "Cube.from_grid changed the grid's align_corners flag", c)
+    # 3c. two grids: the map between their own cubes through Cube.transform(to_cube=) and the cube_* functions
+    if g2 is not None:
+        ca1 = "cube_corners" if g.align_corners() else "cube"
+        ca2 = "cube_corners" if g2.align_corners() else "cube"
+        if a == ca1 and b == ca2:
+            import deepali.core.cube as CU
+
+            c1, c2 = g.cube(), g2.cube()
+            pin = torch.tensor(fl(P), dtype=torch.float64)
+            qexp = torch.tensor(fl(Q), dtype=torch.float64)
+            routes = [("Cube.transform_%s[to_cube]" % ("vectors" if vec else "points"),
+                       lambda: c1.transform_vectors(pin, "cube", to_cube=c2) if vec else c1.transform_points(pin, "cube", to_cube=c2)),
+                      ("cube_transform_%s" % ("vectors" if vec else "points"),
+                       lambda: CU.cube_transform_vectors(pin, c1, Axes.CUBE, c2) if vec else CU.cube_transform_points(pin, c1, Axes.CUBE, c2)),
+                      ("cube_%s_transform" % ("vectors" if vec else "points"),
+                       lambda: homogeneous_transform_((CU.cube_vectors_transform if vec else CU.cube_points_transform)(c1, Axes.CUBE, c2).double(), pin, vec)),
+                      ("Cube.transform[via world]", lambda: (c2.transform_vectors(c1.transform_vectors(pin, "cube", "world"), "world", "cube") if vec
+                                                             else c2.transform_points(c1.transform_points(pin, "cube", "world"), "world", "cube")))]
+            for op, fn in routes:
+                o = guarded(op, fn)
+                if o is not None:
+                    err = max_err(o, qexp) if tuple(o.shape) == tuple(qexp.shape) else float("inf")
+                    if err > bound(scale, F32):
+                        report(op, err, bound(scale, F32))
+    # 3d. the grid_*_transform functions return the matrix of the case
+    from deepali.core.grid import grid_points_transform, grid_vectors_transform
+
+    Tf = guarded("grid_vectors_transform" if vec else "grid_points_transform",
+                 lambda: (grid_vectors_transform if vec else grid_points_transform)(g, Axes(a), g2 if g2 is not None else g, Axes(b)))
+    if Tf is not None:
+        Tf = Tf.double()
+        if not vec and tuple(Tf.shape) == (len(M), len(M)):
+            Tf = torch.cat([Tf, torch.zeros(len(M), 1, dtype=Tf.dtype)], dim=1)
+        if tuple(Tf.shape) != (len(M), len(M[0])) or max_err(Tf, fl(M)) > bound(scale, F32):
+            report("grid_vectors_transform" if vec else "grid_points_transform", max_err(Tf, fl(M)) if tuple(Tf.shape) == (len(M), len(M[0])) else float("inf"), bound(scale, F32))
     # 4. the homogeneous POINT matrix of the case applied through core.linalg / core.affine: to points with vectors=False,
     #    to displacements with vectors=True (the translation column must then be ignored)
     from deepali.core import affine as A_
@@ -280,6 +321,46 @@ def check_grid_case(ctx: Ctx, c: Dict[str, Any]) -> None:
         shape[D - 1 - i] = n[i]
         if not torch.equal(idx[..., i].to(torch.int64), ar.reshape(shape).expand(idx.shape[:-1])):
             ctx.violation(dict(op="Grid.coords", what="indices", **sig0), "coords(normalize=False) are not the integer indices", c)
+    # equality of grids / cubes: equal to a copy built from the same attributes, different from every grid that differs in one attribute
+    # (the harnesses of C03..C05, C10 and C19 rely on Grid.__eq__ to compare grids)
+    from deepali.core.cube import Cube
+    from deepali.core.grid import Grid
+
+    try:
+        same = mk_grid(c["g"])
+        if not (g == same) or (g != same):
+            ctx.violation(dict(op="Grid.__eq__", what="equal", **sig0), "two grids built from the same attributes are not equal", c)
+        if not (g.cube() == same.cube()):
+            ctx.violation(dict(op="Cube.__eq__", what="equal", **sig0), "the cubes of two equal grids are not equal", c)
+        rot = torch.eye(D)
+        rot[0, 0], rot[0, 1], rot[1, 0], rot[1, 1] = 0.0, -1.0, 1.0, 0.0
+        others = [("size", g.resize(tuple(m + 1 for m in n))), ("center", g.center(g.center() + 0.01 * g.spacing())), ("spacing", g.spacing(g.spacing() * 1.01)),
+                  ("direction", g.direction(rot @ g.direction())), ("one axis", g.resize(tuple(m + (1 if i == D - 1 else 0) for i, m in enumerate(n))))]
+        for what, h in others:
+            if g == h or not (g != h):
+                ctx.violation(dict(op="Grid.__eq__", what=what, **sig0), f"a grid with another {what} compares equal", c)
+            if what != "size" and what != "one axis" and g.cube() == h.cube():
+                ctx.violation(dict(op="Cube.__eq__", what=what, **sig0), f"the cube of a grid with another {what} compares equal", c)
+        if g == g.cube() or g == "grid":
+            ctx.violation(dict(op="Grid.__eq__", what="type", **sig0), "a grid compares equal to an object of another type", c)
+        # a cube rebuilt from its own flat description (center form, origin form, list / ndarray) is the same cube
+        cu = g.cube()
+        flat_c = cu.extent().tolist() + cu.center().tolist() + cu.direction().flatten().tolist()
+        flat_o = cu.extent().tolist() + cu.origin().tolist() + cu.direction().flatten().tolist()
+        import numpy as _np
+
+        for form, mk in (("from_seq", lambda: Cube.from_seq(flat_c)), ("from_seq(origin)", lambda: Cube.from_seq(flat_o, origin=True)),
+                         ("from_numpy", lambda: Cube.from_numpy(_np.asarray(flat_c))), ("from_numpy(list, origin)", lambda: Cube.from_numpy(flat_o, origin=True)),
+                         ("numpy round trip", lambda: Cube.from_numpy(cu.numpy())), ("direction flat", lambda: cu.direction(*cu.direction().flatten().tolist()))):
+            try:
+                c2_ = mk()
+                if max_err(c2_.center(), cu.center()) > 1e-4 * max(1.0, float(cu.center().abs().max())) or max_err(c2_.extent(), cu.extent()) > 1e-5 * float(cu.extent().max()) \
+                        or max_err(c2_.direction(), cu.direction()) > 1e-5:
+                    ctx.violation(dict(op="Cube." + form, what="values", **sig0), f"Cube.{form} of the grid's cube gives {c2_!r}, expected {cu!r}", c)
+            except Exception as ex:
+                ctx.violation(dict(op="Cube." + form, exc=type(ex).__name__, **sig0), f"Cube.{form} raised {type(ex).__name__}: {str(ex)[:100]}", c)
+    except Exception as ex:
+        ctx.violation(dict(op="Grid.__eq__", exc=type(ex).__name__, **sig0), f"comparing grids raised {type(ex).__name__}: {str(ex)[:100]}", c)
     ctx.count(key=("grid", json.dumps(c["g"], sort_keys=True)))
 
 
